@@ -54,10 +54,20 @@ type Place struct {
 	Slot    int
 	BasePos token.Pos
 	InLoop  bool
+	Pos     token.Pos // actual position (orders places that share one inlined call)
 }
 
 // PlaceOf returns the place of a record.
-func PlaceOf(r *Rec) Place { return Place{r.Ctx, r.Slot, r.BasePos, r.InLoop} }
+func PlaceOf(r *Rec) Place { return Place{r.Ctx, r.Slot, r.BasePos, r.InLoop, r.Pos} }
+
+// precedes reports whether place a comes before the creation of child in program order.
+func precedes(a Place, child *Ctx) bool {
+	if a.BasePos != child.BasePos {
+		return a.BasePos < child.BasePos
+	}
+	// same statement of the entry function (both inside one inlined call): compare actual positions
+	return a.Pos.IsValid() && child.Node != nil && a.Pos < child.Node.Pos()
+}
 
 // MayRunConcurrently reports whether code at place a may run at the same time as code
 // at place b, and why.
@@ -126,14 +136,14 @@ func ancestorVsDescendant(a Place, child *Ctx) (bool, string) {
 			if a.Slot != child.ParentSlot {
 				return false, "S3: " + child.String() + " is created in the terminal slot of " + A.String()
 			}
-			if a.BasePos < child.BasePos {
+			if precedes(a, child) {
 				return false, "S1: precedes the creation of " + child.String() + " in the terminal slot"
 			}
 			return true, "follows the creation of " + child.String() + " in the same terminal slot"
 		}
 		return true, child.String() + " is created in the next slot of " + A.String() + " and outlives that callback"
 	default: // KBody, KGo, KTimer: code that runs once per instance
-		if !repeats(A, a.Slot) && a.BasePos < child.BasePos && !(a.InLoop && child.InLoop) {
+		if !repeats(A, a.Slot) && precedes(a, child) && !(a.InLoop && child.InLoop) {
 			return false, "S1: precedes the creation of " + child.String()
 		}
 		return true, "runs after " + child.String() + " was started"
